@@ -10,11 +10,9 @@ Local Open Scope Z_scope.
    emplace_back / pop_back / erase / erase(first,last) / clear / reserve that respects the
    documented preconditions: size(), capacity() and every field of every element, read
    back through the load path from the bytes of the block, are those of a plain list of
-   tuples subjected to the same operations.  (The hypothesis on the stride concerns lists
-   without VaryingSize parameter only and is discharged by esize_stride_ok, see C05.) *)
+   tuples subjected to the same operations. *)
 Theorem C01_refinement : forall L cap budget fixed aid junk bid tbid h,
-  wf_plist L = true -> all_triv L = true -> 0 <= cap ->
-  (has_varying L = false -> stride_ok L (fixed_counts L fixed) (snd (esize L fixed))) ->
+  wf_plist L = true -> all_triv L = true -> 0 <= cap -> Forall (fun c => 0 <= c) fixed ->
   let v0 := fst (mkvec L cap budget fixed aid junk bid tbid) in
   let s0 := {| s_cap := cap; s_elems := [] |} in
   shist_valid L (fixed_counts L fixed) s0 h ->
@@ -29,8 +27,7 @@ Print Assumptions C01_refinement.
 
 (* ... and the same after every prefix of the history, i.e. after every single step *)
 Theorem C01_refinement_every_step : forall L cap budget fixed aid junk bid tbid h1 h2,
-  wf_plist L = true -> all_triv L = true -> 0 <= cap ->
-  (has_varying L = false -> stride_ok L (fixed_counts L fixed) (snd (esize L fixed))) ->
+  wf_plist L = true -> all_triv L = true -> 0 <= cap -> Forall (fun c => 0 <= c) fixed ->
   let v0 := fst (mkvec L cap budget fixed aid junk bid tbid) in
   let s0 := {| s_cap := cap; s_elems := [] |} in
   shist_valid L (fixed_counts L fixed) s0 (h1 ++ h2) ->
